@@ -18,6 +18,7 @@ PROPS = {
     "C01": "vp.harness.c01_bls",
     "C02": "vp.harness.c02_layout",
     "C04": "vp.harness.c04_expr",
+    "C06": "vp.harness.c06_serdes",
     "C11": "vp.harness.c11_xdef",
     "C12": "vp.harness.c12_const",
 }
